@@ -382,6 +382,8 @@ def run(cx, out):
         check_btree(out, facts)
     # premise: allocation announcements reach the tracker through every provided wrapper (C08 R08.1 forwarding)
     from . import shared
-    shared.premises(cx, out, {'c08': {'R08.1'}})
+    # premise: the marker is enforced by the type system, also through the representation types of compact / encoded_as
+    # fields of derived types (C17 W17.3 compile-fail witnesses with compiling twins)
+    shared.premises(cx, out, {'c08': {'R08.1'}, 'c17': {'W17.3'}})
     from . import positive
     positive.check(cx, out, 'C12')
